@@ -387,6 +387,19 @@ func runC03(c *mon.Ctx) {
 			sizes2 = append(sizes2, sz)
 		}
 	}
+	// large bodies: exact multiples of 64 KiB (and their neighbours) up to 2 MiB, where block-wise copies start
+	for _, k := range []int{3, 4, 5, 6, 7, 8, 16, 32} {
+		for d := -1; d <= 1; d++ {
+			sizes2 = append(sizes2, 65536*k+d)
+		}
+	}
+	if c.Thorough() {
+		for k := 2; k <= 32; k++ {
+			for _, d := range []int{-2, 2, 4096} {
+				sizes2 = append(sizes2, 65536*k+d)
+			}
+		}
+	}
 	c.Each("body-size-sweep", int64(len(sizes2)), func(i int64, r *mon.Rand) {
 		size := sizes2[i]
 		tr, sh, ok := exactTrack(size, r)
